@@ -1,0 +1,18 @@
+//go:build verif
+
+package trafficrouting
+
+import (
+	"github.com/openkruise/rollouts/pkg/trafficrouting"
+	"k8s.io/apimachinery/pkg/runtime"
+	"k8s.io/client-go/tools/record"
+	"sigs.k8s.io/controller-runtime/pkg/client"
+)
+
+// Verification hooks (build tag verif).
+
+func NewReconcilerForVerif(cli client.Client, scheme *runtime.Scheme, recorder record.EventRecorder) *TrafficRoutingReconciler {
+	return &TrafficRoutingReconciler{Client: cli, Scheme: scheme, Recorder: recorder, trafficRoutingManager: trafficrouting.NewTrafficRoutingManager(cli)}
+}
+
+func SetDefaultGracePeriodSecondsForVerif(s int32) { defaultGracePeriodSeconds = s }
